@@ -14,14 +14,22 @@ DRIFT = {"M0": 0.0, "M1": 2.0 ** -7}
 MENU = [[], [bl(0, 99)], [sl(1, 101)], [bl(1, 99)], [sl(0, 101)], [bl(0, 99), sl(1, 101)], [bm(1)], [bl(0, 99.5)]]
 
 
-def base(events, sess_events, meta, name):
+def _small_chunks(w):
+    # generation chunk lowered to 2 (default 100) so that chunk boundaries fall inside these short runs
+    w.runner.simulator.fundamentals._generate_chunk_size = 2
+    for m in w.runner.simulator.markets:
+        m.chunk_size = 2
+
+
+def base(events, sess_events, meta, name, small_chunks=False):
     markets = [dict(name="M0", drift=DRIFT["M0"]), dict(name="M1", drift=DRIFT["M1"], tick=0.5)]
     ags = [dict(name="A0", menu=MENU, program=[1, 1, 4], markets=["M0", "M1"]),
            dict(name="A1", menu=MENU, program=[2, 3, 2], markets=["M0", "M1"])]
     sessions = [S(0, 3, True, False, maxNormalOrders=2, **({"events": sess_events[0]} if sess_events[0] else {})),
                 S(1, 3, True, True, maxNormalOrders=2, **({"events": sess_events[1]} if sess_events[1] else {}))]
     meta = dict(meta, initial={"M0": 100.0, "M1": 100.0}, drift=DRIFT)
-    return Scenario(name, mkcfg(sessions, markets=markets, agents=ags, events=events), meta=meta)
+    return Scenario(name, mkcfg(sessions, markets=markets, agents=ags, events=events), meta=meta,
+                    post_setup=_small_chunks if small_chunks else None)
 
 
 def f_scenarios():
@@ -41,8 +49,10 @@ def f_scenarios():
                                 ev["shockTimeLength"] = length
                             se = [[], []]
                             se[sess] = ["SH"]
-                            sc[name] = base({"SH": ev}, se, dict(fshocks=[dict(target=target, session=sess, triggerTime=tt,
-                                             length=(length or 1), rate=rate, enabled=enabled)]), name)
+                            meta = dict(fshocks=[dict(target=target, session=sess, triggerTime=tt, length=(length or 1), rate=rate, enabled=enabled)])
+                            sc[name] = base({"SH": ev}, se, meta, name)
+                            if enabled and rate > 0:
+                                sc[name + "-chunk2"] = base({"SH": ev}, se, meta, name + "-chunk2", small_chunks=True)
     return sc
 
 
